@@ -54,6 +54,15 @@ def check_mask(lengths, t):
         zeros_got = [i for i, v in enumerate(got_l) if v == 0.0]
         zeros_exp = [i for i, v in enumerate(exp) if v == 0.0]
         raise Violation(f"mask for stacked lengths {lengths} has zeros at {zeros_got}, boundary pairs are priced by entries {zeros_exp}")
+    # the mask is a template: callers (and the joint front end) multiply it by the switching cost; every within-series pair must
+    # then carry exactly that cost and every boundary pair exactly 0 - for costs of any legal magnitude
+    for beta in (0.1, 1.0 / 3.0, 7.3, 1e300, 5e-324, 1e-300):
+        prod = np.asarray(beta * got)
+        want = [beta * v for v in exp]
+        if prod.shape[0] != len(want) or any(float(a) != b for a, b in zip(prod.ravel(), want)):
+            i = next(i for i, (a, b) in enumerate(zip(prod.ravel(), want)) if float(a) != b)
+            raise Violation(f"switching cost {beta!r} times the mask prices pair {i} at {float(prod.ravel()[i])!r}, expected {want[i]!r} "
+                            f"(mask element type {np.asarray(got).dtype})")
 
 
 def enumerate_masks(tier):
